@@ -166,6 +166,11 @@ type Monitor func(p Params, ex *world.Exec, v *Verdict)
 
 // Exec runs one execution of the scenario under the chooser and judges it.
 func Exec(p Params, pats []NamedTP, ctl *explore.Ctl, mon Monitor) (explore.Result, *world.Exec) {
+	return ExecWith(p, pats, ctl, mon, nil)
+}
+
+// ExecWith is Exec with a last-minute adjustment of the world configuration.
+func ExecWith(p Params, pats []NamedTP, ctl *explore.Ctl, mon Monitor, adjust func(c *world.Config)) (explore.Result, *world.Exec) {
 	v := &Verdict{Prop: p.Prop}
 	hz := p.Horizon
 	if hz == 0 {
@@ -192,6 +197,9 @@ func Exec(p Params, pats []NamedTP, ctl *explore.Ctl, mon Monitor) (explore.Resu
 			lat = 5 * time.Millisecond
 		}
 		cfg.FaultMenu = FaultMenu(lat)
+	}
+	if adjust != nil {
+		adjust(&cfg)
 	}
 	if p.DropK > 0 {
 		cnt := map[string]int{}
